@@ -27,6 +27,9 @@ class MultiTaskBCD(BaseSolver):
         self.verbose = verbose
 
     def _solve(self, X, Y, datafit, penalty, W_init=None, XW_init=None):
+        if self.ws_strategy not in ("subdiff", "fixpoint"):
+            raise ValueError(
+                'Unsupported value for self.ws_strategy:', self.ws_strategy)
         n_samples, n_features = X.shape
         n_tasks = Y.shape[1]
         pen = penalty.is_penalized(n_features)
